@@ -228,8 +228,9 @@ def run_case(case, ctx):
                 sig['op'] = name
                 desc += ' [zoo %s %r]' % (role, z)
             if not _same(gc, gp, mode):
+                # an open finding that left both containers with equal contents does not end the history
                 ctx.mismatch('%s: C -> %s, Python -> %s' % (desc, _show(gc), _show(gp)),
-                             dict(sig, what='result'), recoverable=False)
+                             dict(sig, what='result'), recoverable=(cc == cp or repr(cc) == repr(cp)))
             # the documented semantics of unusable arguments, against the classifier
             if role and name in ('set', 'insert', 'setdefault', 'add', 'del', 'pop', 'popd', 'remove', 'discard',
                                  'get', 'getitem', 'in', 'has_key'):
